@@ -87,6 +87,15 @@ def beartyping(
         claw_state,
     )
 
+    from beartype.claw._package._clawpkgmake import make_conf_hookable
+
+    # Coerce the passed beartype configuration into the hookable configuration
+    # that the beartype_all() function called below actually registers. The
+    # comparison performed on leaving this context is against this registered
+    # configuration, which differs from the passed configuration whenever the
+    # caller did not explicitly pass "warning_cls_on_decorator_exception".
+    conf = make_conf_hookable(conf)
+
     # Prior global beartype configuration registered by a prior call to the
     # beartype_all() function if any *OR* "None" otherwise.
     packages_trie_conf_if_hooked_old: Optional[BeartypeConf] = None
